@@ -155,6 +155,33 @@ Proof. intros (_ & _ & _ & _ & _ & _ & Hv & Hs). split.
     apply (verify_iff K) in V. apply V.
   - destruct (sy_stage y); try exact I. apply (verify_iff K) in Hs. apply Hs. Qed.
 
+
+(** ** revocation: the state a close would use changes only in the step that discloses its lock, and disclosed locks stay
+    disclosed - so every closing message made for a state that has since been superseded carries a disclosed lock (the
+    merchant can refute it), while the current one never does ([close_accepted]) *)
+Lemma step_keeps_or_discloses (pk : pkey K) (y : sys K) ev :
+  let y' := fst (sys_step pk y ev) in
+  (main_state (sy_stage y') = main_state (sy_stage y) /\ sy_disclosed y' = sy_disclosed y) \/
+  (In (s_lock (main_state (sy_stage y))) (sy_disclosed y') /\ incl (sy_disclosed y) (sy_disclosed y')).
+Proof. destruct y as [st cb mb dis]. unfold sys_step. cbn [sy_stage sy_disclosed].
+  destruct st as [s bfc bft|s bft cs|s tok cs|new old bfr bft bfc ocs|s bft cs], ev; cbn [step];
+    try (left; split; reflexivity);
+    try (match goal with |- context [if ?b then _ else _] => destruct b end; left; split; reflexivity).
+  - destruct (apply_payment (s_cb s) (s_mb s) amount) as [[? ?]|]; left; split; reflexivity.
+  - destruct (verify pk (cmsg new) (unblind bfc reply)); [|left; split; reflexivity].
+    right. cbn [fst sy_stage sy_disclosed main_state]. split; [left; reflexivity | intros x Hx; right; exact Hx]. Qed.
+
+Theorem superseded_state_is_revoked (pk : pkey K) evs : forall (y : sys K),
+  let y' := run pk y evs in
+  incl (sy_disclosed y) (sy_disclosed y') /\
+  (main_state (sy_stage y') = main_state (sy_stage y) \/ In (s_lock (main_state (sy_stage y))) (sy_disclosed y')).
+Proof. induction evs as [|ev evs IH]; intros y; cbn [run].
+  - split; [apply incl_refl | left; reflexivity].
+  - destruct (IH (fst (sys_step pk y ev))) as [I1 I2].
+    destruct (step_keeps_or_discloses pk y ev) as [[E1 E2]|[D1 D2]].
+    + rewrite E1, E2 in *. split; assumption.
+    + split; [eapply incl_tran; eassumption|]. right. apply I1. exact D1. Qed.
+
 (** ** exact-value reuse (C14): every masked atom is an injective function of its own fresh draw *)
 Theorem randomized_first_element_injective (s1 r r' : K) : s1 <> f0 -> s1 * r = s1 * r' -> r = r'.
 Proof. intros Hs E. now apply (fmul_cancel_l K s1). Qed.
